@@ -15100,6 +15100,15 @@ func (l *Lowerer) lowerAtomicStore(args []parser.Expr, target *[]ir.Statement) (
 	// Concretize abstract value to match the atomic's element type.
 	l.concretizeStoreValue(pointer, value)
 
+	// Flush the pending emit range before the store: the pointer and the value
+	// must have been evaluated by an Emit that precedes the statement using them.
+	restartEmitter := false
+	if l.emitStateStart != nil {
+		emitStart := *l.emitStateStart
+		l.emitFinish(emitStart, target)
+		restartEmitter = true
+	}
+
 	// Rust naga emits a plain Store for atomicStore, not an Atomic statement.
 	// See naga/src/front/wgsl/lower/mod.rs around line 2895.
 	*target = append(*target, ir.Statement{
@@ -15108,6 +15117,12 @@ func (l *Lowerer) lowerAtomicStore(args []parser.Expr, target *[]ir.Statement) (
 			Value:   value,
 		},
 	})
+
+	if restartEmitter {
+		newStart := l.currentExprIdx
+		l.emitStateStart = &newStart
+		l.currentEmitTarget = target
+	}
 
 	return l.voidCallResult() // No return value
 }
